@@ -853,6 +853,13 @@ def _check_chain(ctx, case):
         else:
             rel = 1e-5
         _judge(case, "chain", np.abs(inten_n.sum(axis=(-2, -1)) - p0), rel * p0, "sum of predicted intensity of a pattern == total probe intensity")
+        ov64 = _np(overlap).astype(np.complex128)
+        ov_energy = np.sum(np.abs(ov64) ** 2, axis=(0, -2, -1))[:, None, None]
+        _judge(
+            case, "chain", np.abs(inten_n - ref.centred_magnitudes(ov64) ** 2),
+            (1e-10 if case["hi"] else 1e-4) * ov_energy * np.ones(inten_n.shape),
+            "DetectorPixelated.forward == fftshift(sum over modes |ortho fft2|^2)",
+        )
 
         # adjointness on the real patch indices (complex path, quantem's own gather)
         idx = _np(pidx)
@@ -947,6 +954,8 @@ def _check_proj(ctx, case):
                 y2 = pt.fourier_projection(torch.tensor(m), y.clone())
                 g = pt.gradient_step(torch.tensor(m), torch.tensor(x))
                 g2 = pt.gradient_step(torch.tensor(m), y.clone())
+                det_x = pt.detector_model.forward(torch.tensor(x))
+                det_y = pt.detector_model.forward(y.clone())
     y_n, y2_n, g_n, g2_n = (_np(t) for t in (y, y2, g, g2))
     if y_n.shape != x.shape:
         _fail(case, "fourier_projection changed the array shape %s -> %s" % (x.shape, y_n.shape))
@@ -966,8 +975,25 @@ def _check_proj(ctx, case):
     reg = 0.0
     if M >= 2:
         reg = np.where(Sx > 2 * sq, 4 * sq * m64 / np.maximum(Sx - sq, 1e-300), np.inf)
+    # the detector layout the measured amplitudes live in: DetectorPixelated.forward of the exit waves
+    # against the float64 reference fftshift(sum_modes |fft2(psi, ortho)|^2), per pattern
+    energy = np.sum(np.abs(x64) ** 2, axis=(0, -2, -1))[:, None, None]  # total intensity of each pattern
+    rel_i = 1e-4 if f32 else 1e-10
+    det_x_n = _np(det_x).astype(np.float64)
+    if det_x_n.shape != m64.shape:
+        _fail(case, "DetectorPixelated.forward returned shape %s, expected %s" % (det_x_n.shape, m64.shape))
+    _judge(
+        case, "proj", np.abs(det_x_n - Sx**2), rel_i * energy * np.ones(m64.shape),
+        "DetectorPixelated.forward == fftshift(sum over modes |ortho fft2|^2)",
+    )
     mags = ref.centred_magnitudes(y_n)
     _judge(case, "proj", np.abs(mags - m64), base + reg, "Fourier magnitudes after projection == measured amplitudes")
+    # the library's own detector as the observer: it must see the measured intensities A**2
+    t_a = base + reg
+    _judge(
+        case, "proj", np.abs(_np(det_y).astype(np.float64) - m64**2), t_a * (2 * m64 + t_a) + rel_i * scale**2,
+        "DetectorPixelated.forward(projected wave) == measured amplitudes ** 2",
+    )
     mags_g = ref.centred_magnitudes(x64 + g_n)
     _judge(case, "proj", np.abs(mags_g - m64), base + reg, "Fourier magnitudes of overlap + gradient_step == measured amplitudes")
     # idempotence, judged per Fourier coefficient (ortho FFT is an isometry).  With G = F(P(x)) and
